@@ -58,10 +58,8 @@ def shard(args):
     out = {"cases": 0, "failures": {}, "violations": [], "samples": [], "hashes": [], "crash_points": 0}
     for i in range(n):
         spec = specgen.gen_safe_spec(rng, realsys.unit_info, allow_delete=False, allow_dumps=False)
-        for _ in range(60):
-            if not history.has_shared_job(spec):
-                break
-            spec = specgen.gen_safe_spec(rng, realsys.unit_info, allow_delete=False, allow_dumps=False)
+        if history.has_shared_job(spec):
+            spec = specgen.unshare_jobs(spec)      # own journey, steps and jobs per usage pattern
         if history.has_shared_job(spec):
             continue
         try:
